@@ -46,6 +46,8 @@ var catalogue = []script{
 	{"pack", `emit(string.pack("<i4", 100):byte(1, -1)) emit(string.unpack("<i4", string.pack("<i4", -2))) emit(utf8.char(228, 8364)) emit(string.format("%q", 1/3))`},
 	{"sort", `local t = {5, 2, 8, 1} table.sort(t, function(a, b) return a > b end) emit(table.concat(t, ",")) emit(select("#", table.unpack(t)))`},
 	{"load", `local f = load("return 1 + 1") emit(f()) emit(load(string.dump(function() return 42 end))()) emit(tostring(1e15), tostring(-0.0), math.type(3 // 1))`},
+	{"errpos", `local ok, e = pcall(function() error("boom") end) emit(e) local ok2, e2 = pcall(function() local x = nil; return x.y end) emit(ok2, (e2:gsub(":.*", ""))) emit(debug.getinfo(1, "S").short_src)`},
+	{"loadcost", `local src = "local a = 1 local function f(x) return x + a end return f(2)" local c = runtime.callcontext({kill = {cpu = 1000000}}, function() return load(src)() end) emit(c.status, c.used.cpu) emit(select(2, pcall(load("error('in loaded chunk')", "=loaded"))))`},
 	{"iobuf", `emit(io.type(io.stdout), type(io.output()), io.type(42)) emit(os.time{year=2020, month=1, day=1, hour=12} > 0) emit(type(os.clock()))`},
 }
 
@@ -57,7 +59,7 @@ type obs struct {
 func (o obs) String() string { return o.status + " [" + strings.Join(o.trace, " | ") + "]" }
 
 // runOne is the whole lifecycle of one runtime.
-func runOne(sc script) obs {
+func runOne(sc script, slot int) obs {
 	var o obs
 	r := rt.New(nil)
 	runtime.SetFinalizer(r, nil)
@@ -75,7 +77,9 @@ func runOne(sc script) obs {
 				o.status = "gopanic " + fmt.Sprint(p)
 			}
 		}()
-		clos, err := r.CompileAndLoadLuaChunk(sc.Name, []byte(sc.Src), rt.TableValue(env))
+		// each runtime of a tuple compiles under its own chunk name (the name
+		// is part of what a runtime observes: error positions, debug info)
+		clos, err := r.CompileAndLoadLuaChunk(fmt.Sprintf("%s_r%d", sc.Name, slot), []byte(sc.Src), rt.TableValue(env))
 		if err != nil {
 			o.status = "compile " + err.Error()
 			return
@@ -96,14 +100,15 @@ func runOne(sc script) obs {
 
 var solo = map[string]string{}
 
-func soloObs(sc script) string {
-	if s, ok := solo[sc.Name]; ok {
+func soloObs(sc script, slot int) string {
+	key := fmt.Sprintf("%s/%d", sc.Name, slot)
+	if s, ok := solo[key]; ok {
 		return s
 	}
 	var o obs
-	vsched.Run(zeroTape{}, 0, func() { o = runOne(sc) })
-	solo[sc.Name] = o.String()
-	return solo[sc.Name]
+	vsched.Run(zeroTape{}, 0, func() { o = runOne(sc, slot) })
+	solo[key] = o.String()
+	return solo[key]
 }
 
 type zeroTape struct{}
@@ -131,7 +136,7 @@ func exploreTuple(t []script, bound int, maxExec uint64, o *core.Outcome) {
 	}
 	want := make([]string, len(t))
 	for i, s := range t {
-		want[i] = soloObs(s)
+		want[i] = soloObs(s, i)
 	}
 	var st explore.Stats
 	sigs := uint64(0)
@@ -140,7 +145,7 @@ func exploreTuple(t []script, bound int, maxExec uint64, o *core.Outcome) {
 		rep := vsched.Run(tp, 200000, func() {
 			for i := range t {
 				i := i
-				vsched.Go(func() { res[i] = runOne(t[i]) })
+				vsched.Go(func() { res[i] = runOne(t[i], i) })
 			}
 		})
 		sched := fmt.Sprint(tp.Choices())
@@ -184,13 +189,19 @@ func raceLoc(rc string) string { return rc }
 
 func families(tier string) []*core.Family {
 	rt.VerifSetFinalizerSeam(func(obj interface{}, fin interface{}) {})
-	bound, maxExec := 1, uint64(30000)
+	bound, maxExec := 1, uint64(200000)
 	budget := 240
 	if tier == "thorough" {
 		bound, maxExec, budget = 2, 60000, 1200
 	}
 	if tier != "thorough" {
-		catalogue = catalogue[:11]
+		var quick []script
+		for i, sc := range catalogue {
+			if i < 11 || sc.Name == "errpos" || sc.Name == "loadcost" {
+				quick = append(quick, sc)
+			}
+		}
+		catalogue = quick
 	}
 	n := uint64(len(catalogue))
 	pairs := &core.Family{
